@@ -1,1 +1,63 @@
-/-! C01 — property theorems (placeholder until the model exists). -/
+import EupsModel.Model.Setup
+/-! C01 — setup yields a consistent environment with no residue of superseded versions.
+Model: `EupsModel/Model/Setup.lean`. -/
+namespace EupsModel.C01
+open EupsModel EupsModel.Setup
+
+/-! ## D17: the full statement is false when a product name is reachable from one of its own versions -/
+
+def nTop : Name := [116]
+def nA : Name := [97]
+def nB : Name := [98]
+def nC : Name := [99]
+def v1 : Ver := [49]
+def v2 : Ver := [50]
+def PATH : Str := [80]
+def ALATE : Str := [76]
+
+/-- `top → a` (current `a 1`) `→ b → a 2`: the product-version graph is a DAG, the name graph has a cycle.
+`a 1`: `envPrepend(PATH, $DIR/1); setupRequired(b); envPrepend(PATH, $DIR/2); envSet(L, $DIR)` -/
+def dbD17 : Db :=
+  { decls := [
+      ⟨nTop, v1, [1], [(.always, .dep nA false false none none)]⟩,
+      ⟨nA, v1, [2], [(.always, .prepend PATH (.own [1]) false), (.always, .dep nB false false none none),
+                     (.always, .prepend PATH (.own [2]) false), (.always, .set ALATE (.own []))]⟩,
+      ⟨nB, v1, [3], [(.always, .dep nA false false (some (.explicit v2)) none)]⟩,
+      ⟨nA, v2, [4], [(.always, .prepend PATH (.own [1]) false)]⟩ ],
+    tags := [(tagCurrent, nTop, v1), (tagCurrent, nA, v1), (tagCurrent, nB, v1)] }
+
+def reqTop : Request := ⟨nTop, none, false, none, false, []⟩
+
+def envOf : Res → Option Env
+  | .ok s => some s.env
+  | _ => none
+
+/-- From the empty environment `setup top` succeeds and ends with `SETUP_A = a 2`, while `PATH` still holds
+`dir(a 1)/2`, `L = dir(a 1)`, and `b` — required by the set-up `a`… of version 1 — is not set up. -/
+theorem C01_nested_switch_witness :
+    envOf (runSetup dbD17 20 reqTop Env.empty) =
+      some ⟨[(nA, v2), (nTop, v1)], [(nA, .own (nA, v2) []), (nTop, .own (nTop, v1) [])],
+            [(PATH, [.own (nA, v1) [2], .own (nA, v2) [1]])], [(ALATE, .own (nA, v1) [])]⟩ := by
+  decide +kernel
+
+/-! ## non-vacuity: a diamond that switches `c 1 → c 2` inside one request -/
+
+/-- `top → a → c 1`, `top → b → c 2` -/
+def dbDiamond : Db :=
+  { decls := [
+      ⟨nTop, v1, [1], [(.always, .dep nA false false none none), (.always, .dep nB false false none none)]⟩,
+      ⟨nA, v1, [2], [(.always, .prepend PATH (.own [1]) false), (.always, .dep nC false false (some (.explicit v1)) none)]⟩,
+      ⟨nB, v1, [3], [(.always, .prepend PATH (.own [1]) false), (.always, .dep nC false false (some (.explicit v2)) none)]⟩,
+      ⟨nC, v1, [4], [(.always, .prepend PATH (.own [1]) false)]⟩,
+      ⟨nC, v2, [5], [(.always, .prepend PATH (.own [1]) false)]⟩ ],
+    tags := [(tagCurrent, nTop, v1), (tagCurrent, nA, v1), (tagCurrent, nB, v1), (tagCurrent, nC, v1)] }
+
+/-- the request succeeds, `c` ends at version 2 and no element of `c 1` is left -/
+theorem C01_nonvacuous :
+    envOf (runSetup dbDiamond 20 reqTop Env.empty) =
+      some ⟨[(nC, v2), (nB, v1), (nA, v1), (nTop, v1)],
+            [(nC, .own (nC, v2) []), (nB, .own (nB, v1) []), (nA, .own (nA, v1) []), (nTop, .own (nTop, v1) [])],
+            [(PATH, [.own (nC, v2) [1], .own (nB, v1) [1], .own (nA, v1) [1]])], []⟩ := by
+  decide +kernel
+
+end EupsModel.C01
